@@ -58,6 +58,7 @@ static void c09_period_check(Ctx& ctx, const Args& a)
   for (size_t ci = 0; ci < ctx.cuts.size(); ++ci) {
     i128 y = (i128)x + (i128)k * 2 * ctx.cuts[ci].phi;
     if (iabs128(y) >= LIM) { if (ci == 0) { ctx.skip(); return; } continue; }
+    if (ci == 0) ctx.cls((iabs128(x) >= ((i128)1 << 46) || iabs128(y) >= ((i128)1 << 46)) ? "raw-beyond-2^46" : "raw-below-2^46");
     int64_t v0, v1; int id = iscos ? E_cos : E_sin;
     if (!ctx.call(ci, id, x, v0) || !ctx.call(ci, id, (int64_t)y, v1)) continue;
     if (v0 > 65536 || v0 < -65536 || v1 > 65536 || v1 < -65536) ctx.fail(ci, strf("%s of %" PRId64 " or %s lies outside [-1, 1]: %" PRId64 ", %" PRId64, iscos ? "cos" : "sin", x, i128s(y).c_str(), v0, v1));
